@@ -58,7 +58,7 @@ macro_rules
     `(tactic| (try intro f hf
                try simp only [pst] at *
                try simp at *
-               all_goals (casesm* _ ∧ _)
+               all_goals (try casesm* _ ∧ _)
                all_goals (bash [$ts,*] using [$ls,*])))
 
 /-- all components outside `L` unchanged; dimension, topology and ghost counter unchanged. -/
